@@ -235,6 +235,39 @@ func c16(x *ctx) {
 			}
 		}
 	}
+	// --- a protected / private method defined in a module that a class includes: callable on another instance
+	// from a method of the including class and of its descendants (protected), reported from outside
+	for _, vis := range []string{"protected", "private"} {
+		for d := 1; d <= 3; d++ {
+			mod := "module Pmod\n  " + vis + "\n\n  def target\n    1.5\n  end\nend\n"
+			names := []string{"Lvone", "Lvtwo", "Lvthree"}
+			defs := mod
+			for lv := 1; lv <= d; lv++ {
+				head := "class " + names[lv-1]
+				if lv > 1 {
+					head += " < " + names[lv-2]
+				}
+				defs += head + "\n"
+				if lv == 1 {
+					defs += "  include Pmod\n"
+				}
+				if lv == d {
+					defs += "  def peer(other)\n    other.target\n  end\n\n  def own\n    target\n  end\n"
+				}
+				defs += "end\n"
+			}
+			leaf := names[d-1]
+			tag := fmt.Sprintf("names=0:d=%d:%s", d, vis)
+			src := defs + "a = " + leaf + ".new\nb = " + leaf + ".new\ndbtp a.peer(b)\n"
+			if vis == "protected" {
+				add(src, lines(src), false, "Float", "module-protected-from-includer:"+tag)
+			}
+			src = defs + "a = " + leaf + ".new\ndbtp a.own\n"
+			add(src, lines(src), false, "Float", "module-method-implicit:"+tag)
+			src = defs + "a = " + leaf + ".new\ndbtp a.target\n"
+			add(src, lines(src), true, "", "module-method-from-outside:"+tag)
+		}
+	}
 	cases := make([]*engine.Case, len(progs))
 	for i, p := range progs {
 		cfg := "core"
